@@ -241,3 +241,122 @@ func VH11c_transport_options() {
 	verif.Reach("ran")
 	sock.Close()
 }
+
+// VH11d_answer: the answer to an outstanding request / survey (matching id,
+// read off the wire) arrives while the application does something that ends
+// that request: a new Send, closing the context or the socket, the expiry /
+// retry timer, an option change - explored with one preemption at every
+// visible operation of every goroutine, library goroutines included. For the
+// replying side (rep / respondent): the reply is sent while the asking
+// connection goes away, another request arrives or the socket closes.
+func VH11d_answer() {
+	protos := []string{"req", "surveyor", "rep", "respondent"}
+	proto := protos[verif.Param("proto", 0)]
+	lab := "C11/answer/" + proto
+	sock := vp.New(proto)
+	side := vt.Listen(sock, "a")
+	p1 := side.Peer("p1")
+	useCtx := verif.Choice("ctx", 2) == 1
+	var c mangos.Context
+	if useCtx {
+		var err error
+		c, err = sock.OpenContext()
+		verif.Assert(err == nil, lab+"/open-context")
+	}
+	send := func(b []byte) error {
+		if c != nil {
+			return c.Send(b)
+		}
+		return sock.Send(b)
+	}
+	recv := func() ([]byte, error) {
+		if c != nil {
+			return c.Recv()
+		}
+		return sock.Recv()
+	}
+	setopt := func(n string, v interface{}) error {
+		if c != nil {
+			return c.SetOption(n, v)
+		}
+		return sock.SetOption(n, v)
+	}
+	asking := proto == "req" || proto == "surveyor"
+	var wire []byte
+	if asking {
+		verif.Assert(send([]byte{'q'}) == nil, lab+"/first-send")
+		verif.Quiesce()
+		if len(p1.Sent) != 1 || len(p1.Sent[0].H) != 4 {
+			verif.Fail(lab + "/request-not-on-the-wire")
+			return
+		}
+		wire = append(append([]byte{}, p1.Sent[0].H...), 'r')
+	} else {
+		p1.Deliver([]byte{0x80, 0, 0, 7, 'q'})
+		verif.Quiesce()
+		b, err := recv()
+		verif.Assert(err == nil && len(b) == 1 && b[0] == 'q', lab+"/request-received")
+	}
+	ops := []string{"send", "recv", "close-ctx", "close-socket", "timer", "set-time"}
+	op := verif.Choice("op", len(ops))
+	if ops[op] == "close-ctx" && c == nil {
+		verif.Assume(false)
+	}
+	if asking && verif.Choice("recv-pending", 2) == 1 {
+		verif.Go("R", func() {
+			_, err := recv()
+			verif.Assert(contractErr(err), lab+"/pending-recv/result-outside-sequential-contract")
+		})
+	}
+	bgk := verif.Choice("bg", 3)
+	verif.Go("A", func() {
+		var err error
+		switch ops[op] {
+		case "send":
+			err = send([]byte{'z'})
+		case "recv":
+			_, err = recv()
+		case "close-ctx":
+			err = c.Close()
+		case "close-socket":
+			err = sock.Close()
+		case "timer":
+			verif.FireTimerNow()
+		case "set-time":
+			if proto == "req" {
+				err = setopt(mangos.OptionRetryTime, time.Millisecond)
+			} else if proto == "surveyor" {
+				err = setopt(mangos.OptionSurveyTime, time.Millisecond)
+			} else {
+				err = setopt(mangos.OptionTTL, 3)
+			}
+		}
+		verif.Assert(contractErr(err), lab+"/"+ops[op]+"/result-outside-sequential-contract")
+	})
+	verif.Go("bg", func() {
+		switch bgk {
+		case 0:
+			if asking {
+				p1.Deliver(wire) // the matching answer
+			} else {
+				p1.Deliver([]byte{0x80, 0, 0, 8, 'n'}) // another request
+			}
+		case 1:
+			p1.Drop()
+		case 2:
+			if asking {
+				p1.Deliver(wire)
+				p1.Deliver(wire) // a duplicate right behind it
+			} else {
+				side.Peer("p2").Deliver([]byte{0x80, 0, 0, 9, 'm'})
+			}
+		}
+	})
+	verif.Quiesce()
+	for i := 0; i < 2; i++ {
+		verif.FireTimer()
+	}
+	verif.Reach("ran")
+	sock.Close()
+	verif.Quiesce()
+}
